@@ -278,7 +278,8 @@ void mmd_outline_add_opml(DString * out, const char * source, token * current, s
 
 		level += scratch->base_header_level - 1;
 	} else {
-		level = 0;
+		// End of document: below every heading, whatever the base header level
+		level = scratch->base_header_level - 1;
 	}
 
 	if (s->size) {
